@@ -23,5 +23,6 @@ CONSTANTS
   UseTCP = FALSE
   ChanUnderLock = TRUE
   AckChanCheck = TRUE
+  Urgent = FALSE
 INVARIANTS TypeOK OneInFlight MutexHeld ObsQuiet
 CHECK_DEADLOCK FALSE
